@@ -20,6 +20,7 @@ import (
 	"sort"
 	"strings"
 	"time"
+	"unsafe"
 
 	"github.com/zitadel/oidc/v3/pkg/oidc"
 	"github.com/zitadel/oidc/v3/pkg/op"
@@ -359,6 +360,49 @@ func c10Observe(l *hx.Line, flow, redirect string, resp *opbed.Resp) {
 		B("o.claims", hasSub && (flow == "userinfo" || flow == "introspect")).B("o.active", active).S("o.err", resp.OAuthError())
 }
 
+type c10Kind struct {
+	name string
+	err  error
+}
+
+// the three kinds every journal index is failed with
+var c10BaseKinds = []c10Kind{{"plain", errors.New("injected storage failure")}, {"deadline", context.DeadlineExceeded},
+	{"oidc", oidc.ErrServerError().WithDescription("injected")}}
+
+// c10SpecialKinds: the error VALUES pkg/op treats specially somewhere (errors.Is / errors.As tests, error classes that change the
+// answer), bare and wrapped - injected as storage failures by the fault schedules
+func c10SpecialKinds() []c10Kind {
+	wrap := func(e error) error { return fmt.Errorf("storage: %w", e) }
+	hintExpired := op.IDTokenHintExpiredError{}
+	*(*error)(unsafe.Pointer(&hintExpired)) = errors.New("token expired") // the type's only field is an embedded (unexported) error
+	ks := []c10Kind{
+		{"canceled", context.Canceled}, {"wrap:deadline", wrap(context.DeadlineExceeded)}, {"wrap:canceled", wrap(context.Canceled)},
+		{"ErrDuplicateUserCode", op.ErrDuplicateUserCode}, {"wrap:ErrDuplicateUserCode", wrap(op.ErrDuplicateUserCode)},
+		{"ErrInvalidRefreshToken", op.ErrInvalidRefreshToken}, {"wrap:ErrInvalidRefreshToken", wrap(op.ErrInvalidRefreshToken)},
+		{"ErrNoClientCredentials", op.ErrNoClientCredentials}, {"wrap:ErrNoClientCredentials", wrap(op.ErrNoClientCredentials)},
+		{"IDTokenHintExpiredError", hintExpired}, {"wrap:IDTokenHintExpiredError", wrap(hintExpired)},
+		{"StatusError(503)", op.NewStatusError(errors.New("storage unavailable"), http.StatusServiceUnavailable)},
+	}
+	for _, c := range []struct {
+		n string
+		f func() *oidc.Error
+	}{{"invalid_request", oidc.ErrInvalidRequest}, {"invalid_request_redirect_uri", oidc.ErrInvalidRequestRedirectURI}, {"invalid_scope", oidc.ErrInvalidScope},
+		{"invalid_client", oidc.ErrInvalidClient}, {"invalid_grant", oidc.ErrInvalidGrant}, {"unauthorized_client", oidc.ErrUnauthorizedClient},
+		{"unsupported_grant_type", oidc.ErrUnsupportedGrantType}, {"interaction_required", oidc.ErrInteractionRequired}, {"login_required", oidc.ErrLoginRequired},
+		{"request_not_supported", oidc.ErrRequestNotSupported}, {"access_denied", oidc.ErrAccessDenied}, {"authorization_pending", oidc.ErrAuthorizationPending},
+		{"slow_down", oidc.ErrSlowDown}, {"expired_token", oidc.ErrExpiredDeviceCode}, {"invalid_target", oidc.ErrInvalidTarget}} {
+		ks = append(ks, c10Kind{"oidc:" + c.n, c.f().WithDescription("injected")})
+	}
+	return ks
+}
+
+// (method, error value) pairs that are scheduled for every variant (the other special kinds rotate): the two answers the storage
+// interface documents as part of the protocol, and the sentinel of the audited table that a storage error can reach through
+// an error chain (ClientBasicAuth wraps the error of AuthorizeClientIDSecret, ClientIDFromRequest tests it with errors.Is)
+var c10Documented = map[string][]string{"StoreDeviceAuthorization": {"ErrDuplicateUserCode", "wrap:ErrDuplicateUserCode"},
+	"GetRefreshTokenInfo":     {"ErrInvalidRefreshToken", "wrap:ErrInvalidRefreshToken"},
+	"AuthorizeClientIDSecret": {"ErrNoClientCredentials", "wrap:ErrNoClientCredentials"}}
+
 func c10Stream(r *hx.Rand, tier string, n int, w *bufio.Writer) map[string]int {
 	variants := 8
 	if tier == "thorough" {
@@ -370,26 +414,59 @@ func c10Stream(r *hx.Rand, tier string, n int, w *bufio.Writer) map[string]int {
 	stats := map[string]int{}
 	sy := newSymbols()
 	caseNo := 0
-	kinds := []struct {
-		name string
-		err  error
-	}{{"plain", errors.New("injected storage failure")}, {"deadline", context.DeadlineExceeded}, {"oidc", oidc.ErrServerError().WithDescription("injected")}}
+	kinds := c10BaseKinds
+	special := c10SpecialKinds()
+	kindByName := map[string]c10Kind{}
+	for _, k := range append(append([]c10Kind{}, kinds...), special...) {
+		kindByName[k.name] = k
+	}
 	base := r.U64() % 1000000
-	emit := func(l *hx.Line, flow, redirect string, resp *opbed.Resp, hit bool, failed string, v c10Var) {
-		l.B("hit", hit)
+	rot := int(base % 97)
+	// emit one case: sched = the fault schedule, failedIdx = journal positions (1-based) of the calls that failed, method = the scheduled method
+	emit := func(l *hx.Line, flow, redirect, sched, kind, method string, resp *opbed.Resp, failedIdx []int, v c10Var) {
+		hit := len(failedIdx) > 0
+		failed, mok := "", 0
+		if hit {
+			failed = resp.Journal[failedIdx[0]-1]
+			if method == "" {
+				method = journalMethod(failed)
+			}
+		}
+		isFailed := map[int]bool{}
+		for _, i := range failedIdx {
+			isFailed[i] = true
+		}
+		for j, e := range resp.Journal {
+			if journalMethod(e) == method && !isFailed[j+1] {
+				mok++
+			}
+		}
+		l.S("sched", sched).B("hit", hit).I("nfail", int64(len(failedIdx))).I("mok", int64(mok))
 		if hit {
 			l.S("failed", failed)
 			stats["fault-hit"]++
 			stats["hit-"+flow+"-"+journalMethod(failed)]++
 		}
+		stats["sched-"+sched+"-"+kind]++
 		c10Observe(l, flow, redirect, resp)
 		fmt.Fprintln(w, l.String())
 		stats["cases"]++
 		caseNo++
 	}
+	callsOf := func(journal []string, m string) []int {
+		var out []int
+		for j, e := range journal {
+			if journalMethod(e) == m {
+				out = append(out, j+1)
+			}
+		}
+		return out
+	}
+	fv := 0 // running number of (variant, router, flow): rotates the special kinds
 	for v := 0; v < variants; v++ {
 		for _, router := range []string{"provider", "legacy"} {
 			for _, flow := range c10Flows {
+				fv++
 				seed := base + uint64(1000*v+7)
 				// learn the journal of the fault-free request
 				bed, req, _, vd := c10Prepare(hx.NewRand(seed), sy, router, flow, v)
@@ -406,21 +483,20 @@ func c10Stream(r *hx.Rand, tier string, n int, w *bufio.Writer) map[string]int {
 					return hx.NewLine("C10").I("case", int64(caseNo)).S("flow", flow).S("router", router).S("cred", vd.cred).S("variant", vd.desc()).I("v", int64(v)).
 						S("mode", mode).I("k", int64(k)).I("n", int64(nCalls)).S("kind", kind)
 				}
+				// (1) every journal index, every base kind
 				for k := 1; k <= nCalls+1; k++ {
 					for _, kind := range kinds {
 						bed, req, redirect, _ := c10Prepare(hx.NewRand(seed), sy, router, flow, v)
 						bed.Store.FailAt(k, kind.err)
 						resp := bed.Do(req)
 						bed.Store.ClearFaults()
-						hit := k <= len(resp.Journal) // the k-th call of this request was really made (and failed)
-						failed := ""
-						if hit {
-							failed = resp.Journal[k-1]
+						var idx []int
+						if k <= len(resp.Journal) { // the k-th call of this request was really made (and failed)
+							idx = []int{k}
 						}
-						emit(line("index", k, kind.name), flow, redirect, resp, hit, failed, vd)
+						emit(line("index", k, kind.name), flow, redirect, "index", kind.name, "", resp, idx, vd)
 					}
 				}
-				// each named storage method of the journal failing on every call
 				seen := map[string]bool{}
 				var methods []string
 				for _, e := range baseResp.Journal {
@@ -430,20 +506,81 @@ func c10Stream(r *hx.Rand, tier string, n int, w *bufio.Writer) map[string]int {
 					}
 				}
 				sort.Strings(methods)
+				// firstK: the named method fails on its first k calls (the calls are found run by run: a retry adds calls)
+				firstK := func(m string, k int, kind c10Kind) (*opbed.Resp, []int, string) {
+					var idx []int
+					for {
+						bed, req, redirect, _ := c10Prepare(hx.NewRand(seed), sy, router, flow, v)
+						for _, i := range idx {
+							bed.Store.FailAt(i, kind.err)
+						}
+						resp := bed.Do(req)
+						bed.Store.ClearFaults()
+						next := 0
+						for _, i := range callsOf(resp.Journal, m) {
+							if len(idx) == 0 || i > idx[len(idx)-1] {
+								next = i
+								break
+							}
+						}
+						if len(idx) < k && next > 0 {
+							idx = append(idx, next)
+							continue
+						}
+						return resp, idx, redirect
+					}
+				}
 				for i, m := range methods {
-					kind := kinds[(i+v)%len(kinds)]
-					bed, req, redirect, _ := c10Prepare(hx.NewRand(seed), sy, router, flow, v)
-					bed.Store.FailMethod(m, kind.err)
-					resp := bed.Do(req)
-					bed.Store.ClearFaults()
-					hit, failed := false, ""
-					for _, e := range resp.Journal {
-						if journalMethod(e) == m {
-							hit, failed = true, e
-							break
+					// the kinds this method is scheduled with: one base, one special (thorough: two; rotating), and the documented answers of this method
+					sel := []c10Kind{kinds[(i+v)%len(kinds)], special[(rot+fv*5+i)%len(special)]}
+					if tier == "thorough" {
+						sel = append(sel, special[(rot+fv*5+i+len(special)/2)%len(special)])
+					}
+					for _, dn := range c10Documented[m] {
+						sel = append(sel, kindByName[dn])
+					}
+					for si, kind := range sel {
+						// (2) always: every call of the method fails
+						bed, req, redirect, _ := c10Prepare(hx.NewRand(seed), sy, router, flow, v)
+						bed.Store.FailMethod(m, kind.err)
+						resp := bed.Do(req)
+						bed.Store.ClearFaults()
+						emit(line("method:"+m, 0, kind.name), flow, redirect, "always", kind.name, m, resp, callsOf(resp.Journal, m), vd)
+						if si == 0 {
+							continue // a base kind on the first call is schedule (1)
+						}
+						// (3) first k calls, k = 1, 2, 3 (k+1 only when k calls could really be failed: the method was called again)
+						for k := 1; k <= 3; k++ {
+							resp, idx, redirect := firstK(m, k, kind)
+							if len(idx) < k {
+								stats["sched-saturated"]++
+								break
+							}
+							emit(line("method:"+m, k, kind.name), flow, redirect, fmt.Sprintf("first%d", k), kind.name, m, resp, idx, vd)
 						}
 					}
-					emit(line("method:"+m, 0, kind.name), flow, redirect, resp, hit, failed, vd)
+				}
+				// (4) all: EVERY storage call of the request fails, with every special kind in turn over the variants
+				allKinds := []c10Kind{kinds[fv%len(kinds)]}
+				nAll := 3
+				if tier == "thorough" {
+					nAll = 6
+				}
+				for j := 0; j < nAll; j++ {
+					allKinds = append(allKinds, special[(rot+fv*nAll+j)%len(special)])
+				}
+				for _, kind := range allKinds {
+					bed, req, redirect, _ := c10Prepare(hx.NewRand(seed), sy, router, flow, v)
+					for i := 1; i <= 64; i++ {
+						bed.Store.FailAt(i, kind.err)
+					}
+					resp := bed.Do(req)
+					bed.Store.ClearFaults()
+					var idx []int
+					for i := range resp.Journal {
+						idx = append(idx, i+1)
+					}
+					emit(line("all", 0, kind.name), flow, redirect, "all", kind.name, "", resp, idx, vd)
 				}
 			}
 		}
